@@ -169,6 +169,12 @@ func resolvers() []rdef {
 			return clientip.NewRightmostTrustedRange(k, clientip.TrustedIPRangeFunc(func() ([]net.IPNet, error) { return nil, errors.New("no ranges") }))
 		},
 		ref: func(es []ref.Entry) (netip.Addr, bool) { return netip.Addr{}, false }})
+	// a source that fails while handing back part of its list: the error decides, never an address
+	out = append(out, rdef{name: "RightmostTrustedRange(range source failing with a partial list)", rightmost: true,
+		mk: func(k clientip.HeaderKey) (fox.ClientIPResolver, error) {
+			return clientip.NewRightmostTrustedRange(k, clientip.TrustedIPRangeFunc(func() ([]net.IPNet, error) { return nets[:1], errors.New("refresh failed") }))
+		},
+		ref: func(es []ref.Entry) (netip.Addr, bool) { return netip.Addr{}, false }})
 	return out
 }
 
